@@ -121,7 +121,7 @@ class _Gen:
     @staticmethod
     def g_merge(r, known):
         how = _pick(r, ["inner", "outer", "left", "right", "inner", "outer"])
-        on = _pick(r, ["col", "cols", "index", "left-col-right-index", "col"])
+        on = _pick(r, ["col", "cols", "index", "col"])
         d = {"class": "merge", "how": how, "on": on, "kw": {}}
         if r.random() < 0.3:
             d["kw"]["suffixes"] = ["_l", "_r"]
